@@ -10,6 +10,9 @@ def run(ctx):
         ctx.run_shards(b, "TestVerifC01", 20, 900 if ctx.tier == "quick" else 3400, "c01", parallel=16)
         # the same per-carrier case lists with the traffic dump switched on (PipeData takes another copy path then)
         ctx.run_shards(b, "TestVerifC01", 4, 900, "c01dump", extra_env={"SOCKETACE_PIPE_DEBUG": "1", "VERIF_CARRIERS": "tcp,ws", "VERIF_TIER": "quick"})
+        # the carriers with queues of their own (DNS tunnel, KCP) once more under the race detector
+        br = ctx.build("internal/zzverif/c01", race=True)
+        ctx.run_shards(br, "TestVerifC01", 2, 1500, "c01race", extra_env={"VERIF_CARRIERS": "dns,udp", "VERIF_TIER": "quick"}, race=True)
     return driver.finish(
         ctx, "exploration",
         "for every carrier (tcp, unix, tcp+tls, unix+tls, StartTLS over tcp/unix/ws/stdio/udp/dns, ws, wss, stdio, stdio+tls, udp/KCP, udp+secret, dns) x "
@@ -19,5 +22,5 @@ def run(ctx):
         "write sizes {1,7,4095,4096,4097,32640,32768,32769,65536,100003,whole,random partition}; oracle: online comparison at both observation points, "
         "conservation and end-of-stream exactly at the written length; stall rule instead of timeouts. Quick = Latin-square sample per carrier, "
         "plus, on dns, dns+starttls, udp and ws, one connection on which writes of 1, 2, 3, ... 420 (thorough 1300) bytes are each delivered before the next is written, once per direction (every frame / fragment / name length occurs); "
-        "6000 (thorough 40000) short connections per direction on tcp and ws, 8 at a time: 700 bytes and close at once, the reader must get all of them; the tcp and ws case lists once more with SOCKETACE_PIPE_DEBUG=1 (the traffic-dump copy path of PipeData); thorough = full length x write-size product on stream carriers. Distinct = (carrier, listener, lengths, write sizes, content); non-trivial = the comparison ran to a verdict.",
+        "6000 (thorough 40000) short connections per direction on tcp and ws, 8 at a time: 700 bytes and close at once, the reader must get all of them; the tcp and ws case lists once more with SOCKETACE_PIPE_DEBUG=1 (the traffic-dump copy path of PipeData); the dns and udp case lists once more under the race detector (these carriers keep queues of their own between the multiplexer's goroutines and the packet handlers); thorough = full length x write-size product on stream carriers. Distinct = (carrier, listener, lengths, write sizes, content); non-trivial = the comparison ran to a verdict.",
         ["loopback sockets and in-process pipes stand for the network", "DNS and KCP payloads are limited in size (70 KiB / 128 KiB quick)"])
